@@ -3,7 +3,7 @@
 # Builds the harness against a scratch worktree of /repo (HEAD + patch) and runs one check with it.
 # The worktree lives under /tmp and is removed afterwards. "-" = no patch (sanity run).
 set -u
-patch=$1; id=$2; seed=${3:-1}; tier=${4:-quick}
+patch=$(readlink -f "$1" 2>/dev/null || echo "$1"); [ "$1" = "-" ] && patch="-"; id=$2; seed=${3:-1}; tier=${4:-quick}
 export GOFLAGS=-mod=mod GOPROXY=off
 wt=$(mktemp -d /tmp/mutwt.XXXXXX); rmdir $wt
 git -C /repo worktree add --detach -q $wt HEAD || exit 2
